@@ -1911,12 +1911,18 @@ func (h *fsmHandler) recvMessageloop(ctx context.Context, conn net.Conn, holdtim
 					useRevisedError := h.fsm.isTreatAsWithdraw
 
 					var validationErr error
-					if handling == bgp.ERROR_HANDLING_NONE {
+					if handling != bgp.ERROR_HANDLING_SESSION_RESET {
+						// Validate even if decoding reported a non-fatal error: the
+						// message gets the strongest reaction any of its errors
+						// calls for (RFC 7606), and errors like a missing mandatory
+						// attribute are only found here.
 						ok, ve := bgp.ValidateUpdateMsg(body, rfMap, h.fsm.isEBGP, h.fsm.isConfed, h.allowLoopback)
 						if !ok {
-							validationErr = ve
-							handling = h.handlingError(m, ve, useRevisedError)
-							fmsg.handling = handling
+							if vh := h.handlingError(m, ve, useRevisedError); vh > handling {
+								validationErr = ve
+								handling = vh
+								fmsg.handling = handling
+							}
 						}
 					}
 					if handling == bgp.ERROR_HANDLING_SESSION_RESET {
